@@ -490,11 +490,25 @@ deriving Repr, Inhabited
 
 def RParam.info (p : RParam) : PInfo := ⟨p.name, p.kind, p.dflt.isSome⟩
 
+/-- `: annotation` or nothing -/
+def annPart : Option Ann → List Tok
+  | some a => .colon :: annToks a
+  | none => []
+
+/-- ` = default` or nothing -/
+def dfltPart : Option Ann → List Tok
+  | some d => .eq :: annToks d
+  | none => []
+
+/-- `get_optional_globe`: `*` / `**` -/
+def kindPrefix : PKind → List Tok
+  | .va => [.star]
+  | .vk => [.dstar]
+  | _ => []
+
 /-- `f"{get_optional_globe(v)}{p}{type_annotation}{default}"` -/
 def rparamToks (p : RParam) : List Tok :=
-  (match p.kind with | .va => [.star] | .vk => [.dstar] | _ => []) ++ [.name p.name]
-  ++ (match p.ann with | some a => .colon :: annToks a | none => [])
-  ++ (match p.dflt with | some d => .eq :: annToks d | none => [])
+  kindPrefix p.kind ++ (.name p.name :: (annPart p.ann ++ dfltPart p.dflt))
 
 /-- the loop of `_get_list_of_params_with_type`: `pending` = `pending_positional_only`,
     `found` = `found_last_positional` -/
@@ -510,9 +524,13 @@ def sigItemsGo : Bool → Bool → List RParam → List (List Tok)
 
 def sigItems (ps : List RParam) : List (List Tok) := sigItemsGo false false ps
 
+/-- ` -> annotation` or nothing -/
+def retPart : Option Ann → List Tok
+  | some r => .arrow :: annToks r
+  | none => []
+
 /-- `def {name}({params}){return_annotations}: ...` -/
 def methodToks (f : String) (ps : List RParam) (ret : Option Ann) : List Tok :=
-  .name "def" :: .name f :: .lpar :: (joinComma (sigItems ps) ++
-    (.rpar :: ((match ret with | some r => .arrow :: annToks r | none => []) ++ [.colon, .ellipsis])))
+  .name "def" :: .name f :: .lpar :: (joinComma (sigItems ps) ++ (.rpar :: (retPart ret ++ [.colon, .ellipsis])))
 
 end Typedpy.StubText
